@@ -86,7 +86,7 @@ fn do_send(id: u64, c: u64, chan: u32, cmd: Command, payload: Vec<u8>) -> (Value
         })
     });
     let mut ev = json!({"ev":"Send","c":c,"id":id,"cmd":cmd_num(cmd),"len":len,
-                        "res":"refused","nbytes":0,"pk":[]});
+                        "res":"refused","nbytes":0,"pk":[],"cut":0});
     let bytes = match res {
         Err(_) => {
             ev["res"] = json!("crash");
@@ -214,12 +214,13 @@ fn payload(rng: &mut impl RngCore, len: usize, style: u32) -> Vec<u8> {
     v
 }
 
-/// Run one schedule: `plan[c] = [(id, cmd_index, len)]`, strays, sched = channel picks.
+/// Run one schedule: `plan[c] = [(id, cmd_index, len, cut)]`, strays, sched = channel picks.  A message with
+/// cut = k > 0 is abandoned by its sender after its first k packets: only those reach the receiver.
 fn run_schedule(
     out: &mut Sink,
     rng: &mut impl Rng,
     run: u64,
-    plan: &[(u64, Vec<(u64, u64, usize)>)],
+    plan: &[(u64, Vec<(u64, u64, usize, usize)>)],
     strays: &[u64],
     sched: &[u64],
 ) {
@@ -238,13 +239,18 @@ fn run_schedule(
     for (c, msgs) in plan {
         let real = chans.iter().find(|(a, _)| a == c).unwrap().1;
         let mut stream = vec![];
-        for (id, cmdi, len) in msgs {
+        for (id, cmdi, len, cut) in msgs {
             let cmd = COMMANDS[(*cmdi as usize + rng.gen_range(0..9)) % 9];
             let style = rng.gen();
-            let (ev, m) = do_send(*id, *c, real, cmd, payload(rng, *len, style));
+            let (mut ev, m) = do_send(*id, *c, real, cmd, payload(rng, *len, style));
+            let cut = if m.as_ref().map_or(false, |m| *cut < m.packets.len()) { *cut } else { 0 };
+            ev["cut"] = json!(cut);
             out.emit(ev);
             if let Some(m) = m {
-                for (p, off, dlen) in &m.packets {
+                for (k, (p, off, dlen)) in m.packets.iter().enumerate() {
+                    if cut > 0 && k >= cut {
+                        break;
+                    }
                     stream.push((p.clone(), *id, *off, *dlen));
                 }
                 sent.push(m);
@@ -317,7 +323,7 @@ fn replay(args: &Args) {
             }
             _ => panic!("plan"),
         }
-        let plan: Vec<(u64, Vec<(u64, u64, usize)>)> = plan
+        let plan: Vec<(u64, Vec<(u64, u64, usize, usize)>)> = plan
             .into_iter()
             .map(|(c, msgs)| {
                 (
@@ -330,6 +336,7 @@ fn replay(args: &Args) {
                                 m["id"].as_u64().unwrap(),
                                 m["cmd"].as_u64().unwrap(),
                                 vary_len(&mut rng, vary, m["len"].as_u64().unwrap() as usize),
+                                m["cut"].as_u64().unwrap_or(0) as usize,
                             )
                         })
                         .collect(),
@@ -393,10 +400,12 @@ fn random(args: &Args) {
                     _ => rng.gen_range(0..=maxlen.min(1500)),
                 };
                 let npk = 1 + if len > INIT_CAP { (len - INIT_CAP + CONT_CAP - 1) / CONT_CAP } else { 0 };
-                for _ in 0..npk {
+                // one message in eight is abandoned by its sender somewhere before its last packet
+                let cut = if npk > 1 && len <= maxlen.min(7608) && rng.gen_range(0..8) == 0 { rng.gen_range(1..npk) } else { 0 };
+                for _ in 0..(if cut > 0 { cut } else { npk }) {
                     sched.push(c);
                 }
-                msgs.push((c * 10 + k, rng.gen_range(0..9u64), len));
+                msgs.push((c * 10 + k, rng.gen_range(0..9u64), len, cut));
             }
             plan.push((c, msgs));
         }
